@@ -10,6 +10,7 @@ batch and scale; and for K + D that closure / operator / log-determinant of the 
 import contextlib
 import copy
 import json
+import math
 import warnings
 
 import torch
@@ -117,10 +118,18 @@ def _replay(group):
                         fails.append((label, "L L^T differs from A - S (S = exact Schur complement of the pivots %s) by %.3g" % (m["piv"], err)))
                         break
             else:
-                label = "preconditioner[%s,%s]" % (d["dmode"], "f64" if dtype == torch.float64 else "f32")
+                small = bool(d.get("small"))
+                if small and dtype != torch.float64:
+                    continue
+                su = 1e-9 if small else 1.0
+                label = "preconditioner[%s%s,%s]" % (d["dmode"], ",small-units" if small else "", "f64" if dtype == torch.float64 else "f32")
                 dop = bind.build(beh["dterm"], dtype)
-                from linear_operator.operators import AddedDiagLinearOperator
+                from linear_operator.operators import AddedDiagLinearOperator, DiagLinearOperator
                 Dd = dop.to_dense().to(torch.float64)
+                if small:
+                    # the same problem in units of 1e-9: compared after scaling back (P / su, su * P^-1, log|P| - n log su)
+                    op = type(op)(op.tensor * su) if beh["term"]["cls"] == "Dense" else op * su
+                    dop = DiagLinearOperator(dop._diag * su)
                 full = AddedDiagLinearOperator(op, dop)
                 with contextlib.ExitStack() as st, warnings.catch_warnings(record=True) as wl:
                     warnings.simplefilter("always")
@@ -137,7 +146,7 @@ def _replay(group):
                         if not (anydeg and any("NaN" in str(w.message) for w in wl)):
                             fails.append((label, "no preconditioner returned although the size is above min_preconditioning_size"))
                         continue
-                    Pd = plt.to_dense().to(torch.float64).reshape(B, n, n)
+                    Pd = plt.to_dense().to(torch.float64).reshape(B, n, n) / su
                     Ddf = Dd.expand(*batch, n, n).reshape(B, n, n)
                     LLt = Pd - Ddf
                     match = None
@@ -151,18 +160,18 @@ def _replay(group):
                         continue
                     Pref = torch.stack([_approx(match, q, A) for q in range(B)]) + Ddf
                     eye = torch.eye(n, dtype=dtype).expand(*batch, n, n)
-                    Pinv = closure(eye).to(torch.float64).reshape(B, n, n)
+                    Pinv = closure(eye).to(torch.float64).reshape(B, n, n) * su
                     ref = torch.linalg.inv(Pref)
                     if float((Pinv - ref).abs().max()) > eps_t * 100 * float(ref.abs().max()):
                         fails.append((label, "closure(I) differs from (L L^T + D)^{-1} by %.3g" % float((Pinv - ref).abs().max())))
                     rhs = torch.arange(1, n * 2 + 1, dtype=dtype).reshape(n, 2)
-                    got = closure(rhs.expand(*batch, n, 2)).to(torch.float64).reshape(B, n, 2)
+                    got = closure(rhs.expand(*batch, n, 2)).to(torch.float64).reshape(B, n, 2) * su
                     if float((got - ref @ rhs.to(torch.float64)).abs().max()) > eps_t * 1000 * float(ref.abs().max()):
                         fails.append((label, "closure(rhs) differs from (L L^T + D)^{-1} rhs"))
                     ld = torch.logdet(Pref)
                     if list(logdet.shape) != batch:
                         fails.append((label, "log-determinant has shape %s, expected %s" % (list(logdet.shape), batch)))
-                    elif float((logdet.to(torch.float64).reshape(B) - ld).abs().max()) > eps_t * 1000 * max(1.0, float(ld.abs().max())):
+                    elif float((logdet.to(torch.float64).reshape(B) - n * math.log(su) - ld).abs().max()) > eps_t * 1000 * max(1.0, float(ld.abs().max())):
                         fails.append((label, "reported log-determinant %s differs from log|L L^T + D| = %s" % (logdet.reshape(B).tolist(), ld.tolist())))
         except Exception as e:  # noqa
             fails.append(("%s[%s]" % ("pivoted_cholesky" if d["dmode"] == "none" else "preconditioner", "f64" if dtype == torch.float64 else "f32"),
